@@ -147,11 +147,12 @@ ircam_read_header	(SF_PRIVATE *psf)
 
 	psf->endian = SF_ENDIAN_LITTLE ;
 
-	if (psf->sf.channels > SF_MAX_CHANNELS)
+	/* A big endian channel count of 128..255 is negative when read little endian. */
+	if (psf->sf.channels < 1 || psf->sf.channels > SF_MAX_CHANNELS)
 	{	psf_binheader_readf (psf, "Epmf44", 0, &marker, &samplerate, &(psf->sf.channels), &encoding) ;
 
 		/* Sanity checking for endian-ness detection. */
-		if (psf->sf.channels > SF_MAX_CHANNELS)
+		if (psf->sf.channels < 1 || psf->sf.channels > SF_MAX_CHANNELS)
 		{	psf_log_printf (psf, "marker: 0x%X\n", marker) ;
 			return SFE_IRCAM_BAD_CHANNELS ;
 			} ;
